@@ -507,6 +507,18 @@ def expected_statics(req):
     f = req.split(' ')
     ops = [] if f[6] == '-' else f[6].split(';')
     adds = []
+    base = unhex(f[7]) if len(f) > 7 else b''
+
+    def pjoin(b, p):
+        # PathBuf::push on Unix
+        if p.startswith(b'/'):
+            return p
+        if b == b'' or b.endswith(b'/'):
+            return b + p
+        return b + b'/' + p
+
+    def path_for(p):
+        return p if p.startswith(b'/') else pjoin(base, p)
 
     def hashed(path, content, data=None):
         ne = name_and_ext(path.rsplit(b'/', 1)[-1])
@@ -521,30 +533,32 @@ def expected_statics(req):
             to2 = name if to == b'' else to + b'/' + name
             if kind == 'f':
                 ne = name_and_ext(name)
-                adds.append(dict(path=d + b'/' + name, ident=py_mangle(to2), url=to2, data=None, content=None, hashed=False,
+                adds.append(dict(path=pjoin(d, name), ident=py_mangle(to2), url=to2, data=None, content=None, hashed=False,
                                  ext=ne[1] if ne else b''))
             else:
-                walk_as(d + b'/' + name, to2, sub)
+                walk_as(pjoin(d, name), to2, sub)
 
     for op in ops:
         t = op.split(':')
+        if t[-1] == '!':
+            continue        # the call failed (nothing there): it adds nothing
         if t[0] == 'F':
-            hashed(unhex(t[1]), unhex(t[2]))
+            hashed(path_for(unhex(t[1])), unhex(t[2]))
         elif t[0] == 'B':
-            hashed(unhex(t[1]), None, data=unhex(t[2]))
+            hashed(path_for(unhex(t[1])), None, data=unhex(t[2]))
         elif t[0] == 'A':
-            path, url = unhex(t[1]), unhex(t[2])
+            path, url = path_for(unhex(t[1])), unhex(t[2])
             ne = name_and_ext(path.rsplit(b'/', 1)[-1])
             adds.append(dict(path=path, ident=py_mangle(url), url=url, data=None, content=None, hashed=False, ext=ne[1] if ne else b''))
         elif t[0] == 'D':
-            d = unhex(t[1])
+            d = path_for(unhex(t[1]))
             entries, _ = parse_entries(':'.join(t[2:]))
             for kind, name, sub in entries:
                 if kind == 'f':
-                    hashed(d + b'/' + name, sub)
+                    hashed(pjoin(d, name), sub)
         elif t[0] == 'S':
             entries, _ = parse_entries(':'.join(t[3:]))
-            walk_as(unhex(t[1]), unhex(t[2]), entries)
+            walk_as(path_for(unhex(t[1])), unhex(t[2]), entries)
     return adds
 
 
